@@ -46,7 +46,7 @@ FAMILIES = {
 }
 # (family, roots, simulate num, depth)
 QUICK = [("QS", 14, 24, 18), ("QG", 8, 16, 18), ("QB", 4, 12, 16), ("QR", 8, 16, 14)]
-THOROUGH = [("QS", 400, 0, 0), ("QG", 200, 0, 0), ("QB", 60, 96, 30), ("QR", 80, 64, 20)]
+THOROUGH = [("QS", 100000, 0, 0), ("QG", 600, 0, 0), ("QB", 160, 160, 34), ("QR", 200, 128, 24)]
 MAX_PER_KIND_QUICK = 700
 
 
@@ -74,7 +74,7 @@ def mc_cfg(fam, mode, sim_depth=0, impl="intended"):
         lines.append("  %s <- %s" % (k, c[k]))
     lines += ["  ProvRank <- ProvRankDef", "  StrRank <- StrRankDef", "  ByteRank <- ByteRankDef",
               "  InitCoins = %d" % c["InitCoins"],
-              "  MaxHeight = %d" % (1000 if sim else c["MaxHeight"]),
+              "  MaxHeight = %d" % (1000 if sim else c.get("MaxHeight", 1000)),
               "  MaxSteps = %d" % (sim_depth if sim else 60),
               "  OnlyOK = TRUE", '  Impl = "%s"' % impl, "  DefaultLimit = 100", '  AskMode = "%s"' % mode, "  MaxPages = 40"]
     if mode == "gen":
@@ -130,17 +130,54 @@ def gen(fam, seed, num, depth, timeout):
     return r, shapes
 
 
+def features(shape_json):
+    """What a shape offers the read side: lifecycle states per store, record counts, coordinates in use."""
+    sh = json.loads(shape_json)
+    fs = set()
+    for store in ("dep", "grp", "ord", "bid", "lease", "eacct", "epay"):
+        recs = sh.get(store) or {}
+        if isinstance(recs, list):       # TLC prints the empty function as []
+            recs = {}
+        fs.add((store, "n", min(len(recs), 8)))
+        states = sorted(set(recs.values()))
+        fs.add((store, "states", tuple(states)))
+        for rid, stt in recs.items():
+            parts = rid.split("/")
+            fs.add((store, stt))
+            fs.add((store, "owner", parts[1] if store == "eacct" else parts[0], stt))
+            if store in ("ord", "bid", "lease", "epay") and len(parts) >= 4:
+                fs.add((store, "g%s" % parts[2], "o%s" % parts[3], stt))
+            if store in ("bid", "lease", "epay") and len(parts) >= 5:
+                fs.add((store, "p", parts[4], stt))
+    att = sh.get("attest") or []
+    fs.add(("attest", "n", len(att)))
+    fs.add(("attest", "owners", len(set(a.split("/")[1] for a in att))))
+    fs.add(("attest", "auditors", len(set(a.split("/")[0] for a in att))))
+    fs.add(("prov", "n", len(sh.get("prov") or [])))
+    return fs
+
+
 def choose_roots(shapes, n, seed):
-    """One path per shape, a seeded sample of n shapes; richer shapes (more records) are preferred for half of the sample."""
+    """One path per shape. Half of the roots are picked greedily for feature coverage (lifecycle states, record counts,
+    coordinates: so that every run sees, e.g., leases of the second order generation and attestations of several
+    owners), the other half is a seeded sample of the remaining shapes."""
     rnd = random.Random(seed)
     keys = sorted(shapes)
     if n >= len(keys):
         picked = keys
     else:
-        by_size = sorted(keys, key=lambda k: (-len(k), k))
-        picked = by_size[: n // 2]
-        rest = [k for k in keys if k not in set(picked)]
-        picked += rnd.sample(rest, n - len(picked))
+        feats = {k: features(k) for k in keys}
+        order = keys[:]
+        rnd.shuffle(order)
+        picked, covered = [], set()
+        while len(picked) < (n + 1) // 2:
+            best = max(order, key=lambda k: (len(feats[k] - covered), len(k)))
+            if not feats[best] - covered:
+                break
+            picked.append(best)
+            covered |= feats[best]
+            order.remove(best)
+        picked += rnd.sample(order, n - len(picked))
     roots = []
     for k in sorted(picked):
         paths = sorted(shapes[k], key=lambda p: (len(p), p))
@@ -167,7 +204,7 @@ def j1(fam, roots, timeout, impl="intended"):
     return r, [nodes[i] for i in sorted(nodes)]
 
 
-def run_harness(vh, fam, work, nodes, seed, shards, max_per_kind, dedup=True):
+def run_harness(vh, fam, work, nodes, seed, shards, max_per_kind, dedup=True, conc=150):
     json.dump(world_cfg(fam), open(os.path.join(work, "world.json"), "w"))
 
     def one(i):
@@ -177,8 +214,8 @@ def run_harness(vh, fam, work, nodes, seed, shards, max_per_kind, dedup=True):
                 fh.write(n + "\n")
         out = os.path.join(work, "trace.%d.ndjson" % i)
         cmd = [vh, "chainq", "run", "--config", os.path.join(work, "world.json"), "--nodes", npath, "--out", out, "--seed", str(seed + i),
-               "--max-per-kind", str(max_per_kind)] + ([] if dedup else ["--no-dedup"])
-        rc, txt = vlib.run(cmd, timeout=3000, env=dict(os.environ, GOGC="50", GOMAXPROCS="2"))
+               "--max-per-kind", str(max_per_kind), "--concurrent", "4", "--concurrent-sample", str(conc)] + ([] if dedup else ["--no-dedup"])
+        rc, txt = vlib.run(cmd, timeout=3000, env=dict(os.environ, GOGC="50", GOMAXPROCS="4"))
         if rc != 0:
             raise vlib.Inconclusive("harness failed (family %s shard %d): %s" % (fam, i, txt[-3000:]))
         return out, json.loads(txt.strip().splitlines()[-1])
@@ -219,16 +256,18 @@ def signature(name, q, cls):
     return "%s:%s:%s" % (name, q["kind"], mode)
 
 
-def selftest(fam, trace):
-    """Binding self-test: one returned record altered, one returned record dropped, one next_key cleared; TLC must reject each."""
+def selftest(fam, trace, dirty=()):
+    """Binding self-test: one returned record altered, one returned record dropped, one next_key cleared, one digest altered;
+    TLC must reject each. Only requests whose recorded judgement was clean are used (dirty: (line, request) pairs to avoid)."""
     lines = [json.loads(x) for x in open(trace)]
     res = {}
     d = vlib.scratch("chainq-self-")
+    dirty = set(dirty)
 
     def find(pred):
         for li, ln in enumerate(lines[1:], start=2):
             for qi, qr in enumerate(ln["qs"], start=1):
-                if pred(qr):
+                if (li, qi) not in dirty and pred(qr):
                     return li, qi
         return None
 
@@ -301,7 +340,7 @@ def run(pid, tier, seed, replay):
         r1, nodes = j1(fam, roots, timeout=3000)
         work = vlib.scratch("chainq-%s-" % fam)
         shards = max(1, min(JOBS, len(nodes) // 3))
-        outs = run_harness(vh, fam, work, nodes, seed, shards, 0 if thorough else MAX_PER_KIND_QUICK)
+        outs = run_harness(vh, fam, work, nodes, seed, shards, 0 if thorough else MAX_PER_KIND_QUICK, conc=400 if thorough else 150)
         with cf.ThreadPoolExecutor(max_workers=JOBS) as ex:
             res = list(ex.map(lambda o: j3(fam, o[0], ["X01", "CONF"]), outs))
         return fam, rg, shapes, roots, r1, outs, res
@@ -309,6 +348,7 @@ def run(pid, tier, seed, replay):
     with cf.ThreadPoolExecutor(max_workers=2) as ex:
         results = list(ex.map(family, plans))
 
+    asfound_seen = {}
     for fam, rg, shapes, roots, r1, outs, res in results:
         nreq = sum(o[1]["requests"] for o in outs)
         for (tr, summ), (r3, fails, drift) in zip(outs, res):
@@ -323,6 +363,8 @@ def run(pid, tier, seed, replay):
                 ln = lines[l - 1]
                 qr = ln["qs"][i - 1]
                 sig = signature(name, qr["q"], cls)
+                if cls in KNOWN_CLASSES:
+                    asfound_seen.setdefault(cls, (fam, roots))
                 violations.append(vlib.Violation(pid, sig, "family %s: property %s fails\npath: %s\nrequest: %s\nresponse: %s" % (
                     fam, name, json.dumps(ln["path"]), json.dumps(qr["q"]), json.dumps(qr["r"])[:3000]),
                     {"script.json": json.dumps({"family": fam, "path": ln["path"], "q": qr["q"]}), "step.json": json.dumps(qr, indent=1)}))
@@ -335,7 +377,7 @@ def run(pid, tier, seed, replay):
                 cov["samples"].append({"family": fam, "path": ln["path"][-6:], "q": qr["q"], "r_err": qr["r"].get("err", ""),
                                        "r_items": len(qr["r"].get("items", qr["r"].get("pages", [])))})
             if selft is None and lines and len(lines) > 1:
-                selft = selftest(fam, tr)
+                selft = selftest(fam, tr, [(f[1], f[2]) for f in fails] + [(x[0], x[1]) for x in drift])
             for ln in open(tr):
                 o = json.loads(ln)
                 if "qs" in o:
@@ -348,11 +390,30 @@ def run(pid, tier, seed, replay):
         cov["shapes_seen"] += len(shapes)
         cov["roots"] += len(roots)
         cov["evaluations"] += nreq
-        cov["configs"].append({"family": fam, "mode": FAMILIES[fam]["mode"], "chain_states": rg.distinct, "shapes": len(shapes), "roots": len(roots),
+        cov["configs"].append({"family": fam, "chain_exploration": "exhaustive" if rg.distinct else "simulate", "chain_states": rg.distinct, "shapes": len(shapes), "roots": len(roots),
                                "j1_states": r1.distinct, "j1_transitions": r1.generated, "j1_wall_s": round(r1.wall_s, 1),
                                "gen_wall_s": round(rg.wall_s, 1), "impl_requests": nreq,
+                               "impl_requests_concurrent_pass": sum(o[1].get("concurrent_requests", 0) for o in outs),
                                "kinds_skipped_unchanged": sum(o[1]["kinds_skipped_unchanged"] for o in outs),
                                "per_kind": _merge([o[1]["per_kind"] for o in outs]), "errors": _merge([o[1]["errors"] for o in outs])})
+    # the as-found model must reproduce, at design level, every as-found behaviour the implementation showed: J1 with
+    # Impl = "asfound" on the same roots has to violate the property invariants (otherwise model and classification disagree)
+    cov["asfound_model_reproduces"] = {}
+    for cls, (fam, roots) in sorted(asfound_seen.items()):
+        ra, _ = j1(fam, roots, timeout=1800, impl="asfound")
+        cov["asfound_model_reproduces"][cls] = {"family": fam, "violated": ra.violated}
+        if ra.violated not in ("QListOK", "QWalkOK"):
+            raise vlib.Inconclusive("J1 with Impl=asfound does not reproduce %s on family %s: %r" % (cls, fam, ra))
+    # one violation per signature (the first instance; the number of instances is kept in the evidence)
+    by_sig, uniq = {}, []
+    for v in violations:
+        by_sig[v.signature] = by_sig.get(v.signature, 0) + 1
+        if by_sig[v.signature] == 1:
+            uniq.append(v)
+    for v in uniq:
+        v.detail = "%d instances in this run; first:\n%s" % (by_sig[v.signature], v.detail)
+    violations = uniq
+    cov["failed_judgements_by_signature"] = by_sig
     cov["drift_steps"] = len(drifts)
     for dmsg in drifts[:20]:
         vlib.log("DRIFT " + dmsg)
